@@ -13,7 +13,7 @@ open(p, "w").write(s.replace(old, new, 1))
 try:
     for cid in ids:
         r = subprocess.run(["/verif/check", cid], stdout=subprocess.PIPE, stderr=subprocess.STDOUT, text=True)
-        lines = [l for l in r.stdout.splitlines() if not l.startswith(("    key", "VIOLATION", "[facts]"))]
+        lines = [l for l in r.stdout.splitlines() if not l.startswith(("    key", "VIOLATION", "[facts]", "KNOWN-FINDING"))]
         print("exit=%d" % r.returncode); print("\n".join(l[:260] for l in lines[-8:]))
 finally:
     subprocess.check_call(["git", "-C", "/repo", "checkout", "--", f])
